@@ -184,10 +184,13 @@ Next == /\ s.err = "" /\ l <= Len(Events)
 Spec == Init /\ [][Next]_vars
 
 ASSUME \A i \in 1..N : TLCSet(1000 + i, <<0, "">>)
+(* with a "dbg" field in the input the monitor state of a rejected trace is printed *)
+DebugDump == IF s.err # "" /\ "dbg" \in DOMAIN D THEN PrintT(<<"DEBUG", Traces[tid].id, l, s>>) ELSE TRUE
 Progress ==
   LET cur == TLCGet(1000 + tid)
       score == IF s.err = "" THEN 2 * l ELSE 2 * l + 1
-  IN IF score > cur[1] THEN TLCSet(1000 + tid, <<score, s.err>>) ELSE TRUE
+  IN /\ IF score > cur[1] THEN TLCSet(1000 + tid, <<score, s.err>>) ELSE TRUE
+     /\ DebugDump
 Verdicts ==
   \A i \in 1..N :
     LET r == TLCGet(1000 + i)
